@@ -141,7 +141,13 @@ pub fn add_cond_formats(ws: &mut Worksheet, n: u32, formula: &str) {
     let mut list = vec![];
     for i in 0..n {
         let mut style = Style::default();
-        style.set_background_color(if i % 2 == 0 { "FFFF0000" } else { "FF00FF00" });
+        if i % 3 == 1 {
+            // a rule with an EMPTY differential format (neither font nor fill nor border): still an entry of the dxf
+            // table that later rules count past.  (A number-format-only rule would be the natural example, but the
+            // library's differential-format model has no number format at all - outside what C06 pins.)
+        } else {
+            style.set_background_color(if i % 2 == 0 { "FFFF0000" } else { "FF00FF00" });
+        }
         let mut form = Formula::default();
         form.set_string_value(formula);
         let mut rule = ConditionalFormattingRule::default();
